@@ -4,9 +4,11 @@ import (
 	"encoding/json"
 	"fmt"
 	"strings"
+	"sync"
 	"testing"
 	"time"
 
+	"github.com/xelaj/mtproto/internal/utils"
 	"github.com/xelaj/mtproto/telegram/verifh/hx"
 	"github.com/xelaj/mtproto/telegram/verifh/refsrv"
 	"github.com/xelaj/mtproto/telegram/verifh/scen"
@@ -205,6 +207,13 @@ func evaluate(sc *scen.Scenario, cls []string) error {
 
 func TestC10(t *testing.T) {
 	if p := hx.ReplayPath(); p != "" {
+		var g struct{ Generator bool }
+		if err := evid.LoadReplay(p, &g); err == nil && g.Generator {
+			run.Case(true, 1)
+			run.Case(true, 2)
+			msgIDGenerator(t)
+			return
+		}
 		var sc scen.Scenario
 		if err := evid.LoadReplay(p, &sc); err != nil {
 			t.Fatal(err)
@@ -233,3 +242,48 @@ func TestC10(t *testing.T) {
 }
 
 var _ = refsrv.IDMsgsAck
+
+// TestC10MsgID: the id generator on its own, called the way several clients of one process call it - from many
+// goroutines at once, each under its own client's lock only. Every id is a multiple of four whose upper half is the
+// current second.
+func TestC10MsgID(t *testing.T) {
+	if hx.ReplayPath() != "" {
+		return
+	}
+	msgIDGenerator(t)
+}
+
+func msgIDGenerator(t *testing.T) {
+	per := run.Pick(200000, 3000000)
+	const workers = 8
+	var wg sync.WaitGroup
+	bad := make(chan string, workers)
+	for w := 0; w < workers; w++ {
+		wg.Add(1)
+		go func(w int) {
+			defer wg.Done()
+			for i := 0; i < per; i++ {
+				before := time.Now().Unix()
+				id := utils.GenerateMessageId()
+				after := time.Now().Unix()
+				if id&3 != 0 {
+					bad <- fmt.Sprintf("msg_id %d generated while %d goroutines generate ids is not a multiple of four", id, workers)
+					return
+				}
+				if sec := id >> 32; sec < before-1 || sec > after+1 {
+					bad <- fmt.Sprintf("msg_id %d is not derived from the current time: seconds part %d, clock %d..%d", id, sec, before, after)
+					return
+				}
+			}
+		}(w)
+	}
+	wg.Wait()
+	close(bad)
+	run.Class("msgid-generator:concurrent-calls", int64(workers*per))
+	run.Case(true, evid.Hash("msgid-generator", run.Shard), "msgid-generator")
+	for msg := range bad {
+		p := run.ViolationNamed("msgid-generator", map[string]any{"Generator": true}, msg)
+		t.Errorf("violation (replay %s): %s", p, msg)
+		return
+	}
+}
